@@ -279,7 +279,7 @@ func (g *GW) Post(body []byte, contentType string) (int, []byte) {
 
 // Do sends one operation and decodes the {data, errors} envelope.
 func (g *GW) Do(op *world.Op) (int, map[string]interface{}, error) {
-	return g.DoText(g.W.OpText(op), op.VarsToGo(), op.Name)
+	return g.DoText(g.W.DocText(op), op.VarsToGo(), op.Name)
 }
 
 // DoText sends an operation given as text.
